@@ -23,7 +23,8 @@ META = {
         "same names (what a pickled result holds)}. Monitors: every planted callable/class records "
         "calls and instantiations; a sys.meta_path recorder and a sys.modules key diff detect imports. Oracle: the outcome is a "
         "BaseException instance or SecurityError/ValidationError; zero recorded calls except constructors of BaseException "
-        "subclasses; no import attempt; an unresolvable name yields a synthetic Exception subclass of that name. "
+        "subclasses; no import attempt; an unresolvable name yields a synthetic Exception subclass of that name; after the payloads of each target, probe loads of known non-exceptions are still refused and no "
+        "module namespace (taskiq.serialization, taskiq.exceptions, the planted module, builtins) gained or lost an attribute. "
         "distinct_nontrivial = distinct (target kind, placement, loader, outcome) classes."
     ),
     "assumptions": [
@@ -179,6 +180,14 @@ TARGETS: List[Tuple[Optional[str], str, str]] = [
     (None, "object", "unresolved"),
     (None, "ValueError", "unresolved"),
     (None, "trap_fn", "unresolved"),
+    # names the loader itself relies on: a stand-in created for them must not end up anywhere it could shadow them
+    (None, "issubclass", "unresolved"),
+    (None, "isinstance", "unresolved"),
+    (None, "type", "unresolved"),
+    (None, "BaseException", "unresolved"),
+    (None, "getattr", "unresolved"),
+    ("taskiq.serialization", "issubclass", "unresolved"),
+    ("taskiq.exceptions", "isinstance", "unresolved"),
 ]
 ARGS: List[Tuple[Any, ...]] = [(), ("x",), (1, 2)]
 PLACEMENTS = ["top", "cause", "context", "cause.cause", "cause.context"]
@@ -343,11 +352,51 @@ def shards(tier: str, seed: int) -> List[Any]:
     return [{"tier": tier, "t": i} for i in range(len(TARGETS))]
 
 
+def _namespaces() -> Dict[str, Any]:
+    import taskiq.exceptions
+    import taskiq.serialization
+
+    return {m.__name__: dict(vars(m)) for m in (taskiq.serialization, taskiq.exceptions, sys.modules["vplant"], sys.modules["builtins"])}
+
+
+def probe_after(t: Any, before: Dict[str, Any], acc: Acc) -> None:
+    """State carried between loads: after all payloads of one target, (1) known non-exceptions are still
+    refused and known exception classes still load, (2) no loaded module gained or lost an attribute."""
+    for probe in (("vplant", "NonExc", "nonexc"), ("builtins", "object", "nonexc"), ("vplant", "trap_fn", "nonexc"), ("vplant", "GoodExc", "exc")):
+        n0 = len(acc.violations)
+        run_case(probe, ("x",), "top", "model_validate_json", acc)
+        run_case(probe, ("x",), "cause", "exception_to_python", acc)
+        if len(acc.violations) != n0:
+            acc.violation(
+                "gate-changed-by-earlier-payload",
+                f"after loading the payloads naming {t[0]}.{t[1]} the loader treats {probe[0]}.{probe[1]} differently (see the other violations)",
+                {"case": [list(t), ["x"], "top", "model_validate_json"]},
+            )
+    after = _namespaces()
+    for mod, ns in before.items():
+        added = sorted(set(after[mod]) - set(ns))
+        changed = sorted(k for k in ns if k in after[mod] and after[mod][k] is not ns[k])
+        if added or changed:
+            acc.violation(
+                "loader-polluted-a-module-namespace",
+                f"loading the payloads naming {t[0]}.{t[1]} added {added} / rebound {changed} in module {mod}",
+                {"case": [list(t), ["x"], "top", "model_validate_json"]},
+            )
+            m = sys.modules[mod]
+            for k in added:
+                delattr(m, k)
+            for k in changed:
+                setattr(m, k, ns[k])
+
+
 def run_shard(shard: Dict[str, Any]) -> Dict[str, Any]:
     acc = Acc()
+    _plant()
     t = TARGETS[shard["t"]]
+    before = _namespaces()
     for args, placement, loader in itertools.product(ARGS, PLACEMENTS, LOADERS):
         run_case(t, args, placement, loader, acc)
+    probe_after(t, before, acc)
     if shard["tier"] == "thorough":
         # two crafted payloads in one result: the trap in the context, a legitimate one in the cause and vice versa
         for other in TARGETS[:: 5]:
